@@ -13,16 +13,17 @@ import (
 var casesFile string
 
 type traceWriter struct {
+	chainMode  bool
 	grp        string
 	prefix     string
 	cases      int
 	nontrivial map[string]bool
 	samples    []string
-	w      *bufio.Writer
-	traces int
-	lines  int
-	forced int
-	unforc int
+	w          *bufio.Writer
+	traces     int
+	lines      int
+	forced     int
+	unforc     int
 }
 
 func (t *traceWriter) line(v any) {
@@ -67,6 +68,9 @@ func (t *traceWriter) emitCase(c *Case, pair string, allOrders bool) []Ret {
 	}
 	t.cases++
 	strStyle = t.cases % 2
+	if t.chainMode {
+		strStyle = 0 // Contains("xx") must mean "at least two characters"
+	}
 	defer func() {
 		// non-trivial: the call reported an issue or wrote the destination; distinct by schema+input+mode
 		if t.nontrivial == nil {
